@@ -25,6 +25,7 @@ func checkC33(w *World, r *Run) {
 	checkC33Rewrite(w, r, ruleRewrite)
 	checkC33Website(w, r, ruleRO, ruleMethods)
 	checkC33BucketFromHost(w, r)
+	checkAuthorizerPathIsDecodedPath(w, r)
 	checkSameEndpointEverywhere(w, r)
 	checkC33HostRouting(w, r)
 	r.NotCovered("percent-encoding equivalence of the two addressing styles inside net/http's ServeMux (library behaviour); that bucket names valid in a Host header equal those valid in a path")
